@@ -916,3 +916,157 @@ def kb6f(P, C, floor=4):
                     C.ob("KB-6f", f.name, "vla:%s[%s]" % (d["name"], f.render(e)), ok, f.loc(i),
                          "extent %s >= %d for the admitted arguments%s" % (f.render(e), lb, "" if ok else " — zero-length array when the order is 0" if lb == 0 and not why else "; " + "; ".join(why)))
     return n
+
+
+def kb8(P, C, floor=20):
+    """KB-8: a stack array of constant extent is not indexed by a loop variable whose range grows with a runtime quantity."""
+    C.rule("KB-8", "every local array of constant extent (a template parameter, PHOTOSPLINE_MAXDIM, a literal) that is subscripted by a loop "
+           "variable has, at each such subscript, an upper bound of the index that is a constant below the extent — an index whose range "
+           "grows with the table's dimension count (or any other runtime quantity) needs an array sized by that quantity or a dominating "
+           "guard that refuses larger values; the format, the generic evaluation core and the writers serve any number of dimensions", floor=floor)
+    n = 0
+    for f in sorted(P.functions.values(), key=lambda g: (g.file, g.line, str(g.targs))):
+        if not f.file.startswith(core.REPO) or f.unit.startswith("selftest") or not f.cfg:
+            continue
+        arrays = {}
+        for i in f.walk():
+            if f.k(i) == "DeclStmt":
+                for d in f.nodes[i]["decls"]:
+                    if d.get("dk") == "Var" and d.get("extents") and not d.get("vla"):
+                        m = re.match(r".*?\[(\d+)\]", d.get("ctype") or d.get("type") or "")
+                        if m:
+                            arrays[d["id"]] = (d["name"], int(m.group(1)), i)
+        if not arrays:
+            continue
+        guards = None
+        rd = None
+        # const locals with a constant initialiser (`const unsigned D = sizeof...(Orders);`) are that constant
+        consts = {}
+        for i in f.walk():
+            if f.k(i) == "DeclStmt":
+                for d in f.nodes[i]["decls"]:
+                    if d.get("dk") == "Var" and d.get("type", "").startswith("const ") and d.get("init", -1) >= 0:
+                        cv = f.nodes[f.strip(d["init"], casts=False)].get("cv", f.nodes[d["init"]].get("cv"))
+                        if isinstance(cv, int):
+                            consts[d["name"]] = Poly.const(cv)
+        for i in f.walk():
+            if f.k(i) != "ArraySubscriptExpr":
+                continue
+            b = f.strip(f.nodes[i]["ch"][0])
+            if f.k(b) != "DeclRefExpr" or f.nodes[b]["decl"].get("id") not in arrays:
+                continue
+            name, ext, decl = arrays[f.nodes[b]["decl"]["id"]]
+            env = _loop_env(f, i, {})
+            if not env:
+                continue
+            idx = core.poly(f, f.nodes[i]["ch"][1])
+            if not (idx.atoms() & set(env)):
+                continue                       # not indexed by a loop variable
+            hi = _bound(idx, env, "hi")
+            if hi is not None and consts:
+                hi = hi.subst(consts)
+            n += 1
+            if hi is None:
+                # a descending or data-dependent loop (the carry loops): no claim
+                C.ob("KB-8", kname(f), "%s[%s]@%d" % (name, f.render(f.nodes[i]["ch"][1]).replace(" ", ""), f.nodes[i]["loc"][0]), True, f.loc(i),
+                     "index range not affine in counting loops: outside this rule")
+                continue
+            # a local is replaced by the one definition that reaches this point (reaching definitions over the CFG, a few levels;
+            # a decrement keeps an upper bound valid); strlen() of this very array is at most extent-1
+            if hi.atoms():
+                if rd is None:
+                    rd = _reaching_defs(f)
+                hi = _resolve_upper(f, rd, hi, i, f.nodes[b]["decl"]["name"], ext, env)
+            runtime = sorted(hi.atoms())
+            ok = not runtime and hi.is_const() and hi.const_value() < ext
+            why = "index at most %r, extent %d" % (hi, ext)
+            if runtime:
+                # a dominating throwing guard on the same quantity?
+                if guards is None:
+                    from . import vg
+                    guards = vg.guards_of(f)
+                pos = f.node_positions()
+                dom = f.dominators()
+
+                def at(x):
+                    while x >= 0 and x not in pos:
+                        x = f.parent[x]
+                    return pos.get(x)
+                gd = []
+                for g in guards:
+                    txt = f.render(f.nodes[g["node"]]["cond"])
+                    if any(a.split(".")[-1].replace("this->", "") in txt for a in runtime):
+                        pg, ph = at(f.strip(f.nodes[g["node"]]["cond"])), at(i)
+                        if pg and ph and ((pg[0] == ph[0] and pg[1] < ph[1]) or (pg[0] != ph[0] and pg[0] in dom.get(ph[0], ()))):
+                            gd.append(txt)
+                ok = bool(gd)
+                why = "index grows with %s (up to %r) but the array has %d elements%s" % (", ".join(runtime), hi, ext,
+                                                                                           "; bounded by the guard %s" % gd[0] if gd else " and nothing refuses larger values")
+            C.ob("KB-8", kname(f), "%s[%s]@%d" % (name, f.render(f.nodes[i]["ch"][1]).replace(" ", ""), f.nodes[i]["loc"][0]), ok, f.loc(i), why)
+    return n
+
+
+def _reaching_defs(f):
+    """reaching definitions of scalar locals: returns (IN, transfer, pos).  A state is a frozenset of (variable name, node) pairs, node
+    being the defining expression, or -1 for a store that may increase the variable (++, +=, *=, address taken)."""
+    pos = f.node_positions()
+
+    def target(x):
+        x = f.strip(x)
+        return f.nodes[x]["decl"]["name"] if f.k(x) == "DeclRefExpr" and f.nodes[x]["decl"].get("kind") == "Var" else None
+
+    def transfer(st, e, b_, j_):
+        if e.get("kind") != "stmt":
+            return st
+        x = e["n"]
+        n = f.nodes[x]
+        k = n["k"]
+        if k == "DeclStmt":
+            for d in n["decls"]:
+                if d.get("dk") == "Var":
+                    st = frozenset(p for p in st if p[0] != d["name"]) | ({(d["name"], d["init"])} if d.get("init", -1) >= 0 else set())
+            return st
+        if k in ("BinaryOperator", "CompoundAssignOperator") and n.get("op", "").endswith("=") and n["op"] not in ("==", "!=", "<=", ">="):
+            v = target(n["ch"][0])
+            if v is not None:
+                if n["op"] == "=":
+                    return frozenset(p for p in st if p[0] != v) | {(v, n["ch"][1])}
+                if n["op"] != "-=":
+                    return st | {(v, -1)}
+            return st
+        if k == "UnaryOperator" and n.get("op") == "++":
+            v = target(n["ch"][0])
+            return st | {(v, -1)} if v is not None else st
+        if k == "UnaryOperator" and n.get("op") == "&":
+            v = target(n["ch"][0])
+            return st | {(v, -1)} if v is not None else st
+        return st
+    IN, _OUT = core.dataflow(f, frozenset(), transfer, lambda a, b_: a | b_)
+    return IN, transfer, pos
+
+
+def _resolve_upper(f, rd, p, at_node, arr_name, ext, env, depth=0):
+    """replace atoms of the Poly p (an upper bound needed at node at_node) by upper bounds taken from their reaching definitions."""
+    IN, transfer, pos = rd
+    x = at_node
+    while x >= 0 and x not in pos:
+        x = f.parent[x]
+    if x < 0 or depth > 5:
+        return p
+    st = core.state_before(f, IN, transfer, *pos[x])
+    if st is None:
+        return p
+    for a in sorted(p.atoms()):
+        if p.t.get((a,), 0) < 0:
+            continue                                   # an upper bound of p needs upper bounds of the atoms it adds
+        if a == "strlen(%s)" % arr_name:
+            p = p.subst({a: Poly.const(ext - 1)})
+            continue
+        if a in env:
+            continue
+        defs = [d for (v, d) in st if v == a]
+        if len(defs) == 1 and defs[0] >= 0:
+            q = core.poly(f, defs[0])
+            q = _resolve_upper(f, rd, q, defs[0], arr_name, ext, env, depth + 1)
+            p = p.subst({a: q})
+    return p
